@@ -218,7 +218,30 @@ pub(crate) struct LocalNode {
     helping: HelpingLocal,
 }
 
+/// Tracks the nesting of `LocalNode::with`.
+///
+/// Leaving the outermost one performs the cooldown postponed by `new_helping`.
+struct Scope<'a>(&'a LocalNode);
+
+impl Drop for Scope<'_> {
+    fn drop(&mut self) {
+        let local = self.0;
+        let depth = local.helping.depth.get() - 1;
+        local.helping.depth.set(depth);
+        if depth == 0 && local.helping.discard.replace(false) {
+            if let Some(node) = local.node.take() {
+                node.start_cooldown();
+            }
+        }
+    }
+}
+
 impl LocalNode {
+    fn enter(&self) -> Scope<'_> {
+        self.helping.depth.set(self.helping.depth.get() + 1);
+        Scope(self)
+    }
+
     #[cfg(not(feature = "experimental-thread-local"))]
     pub(crate) fn with<R, F: FnOnce(&LocalNode) -> R>(f: F) -> R {
         let f = Cell::new(Some(f));
@@ -228,6 +251,7 @@ impl LocalNode {
                     head.node.set(Some(Node::get()));
                 }
                 let f = f.take().unwrap();
+                let _scope = head.enter();
                 f(head)
             })
             // During the application shutdown, the thread local storage may be already
@@ -243,6 +267,7 @@ impl LocalNode {
                     helping: HelpingLocal::default(),
                 };
                 let f = f.take().unwrap();
+                let _scope = tmp_node.enter();
                 f(&tmp_node)
                 // Drop of tmp_node -> sends the node we just used into cooldown.
             })
@@ -258,6 +283,7 @@ impl LocalNode {
         if thread_head.node.get().is_none() {
             thread_head.node.set(Some(Node::get()));
         }
+        let _scope = thread_head.enter();
         f(&thread_head)
     }
 
@@ -282,8 +308,11 @@ impl LocalNode {
         if discard {
             // Too many generations happened, make sure the writers give the poor node a break for
             // a while so they don't observe the generation wrapping around.
-            node.start_cooldown();
-            self.node.take();
+            //
+            // We still need the node to finish this transaction (and the writer operation we may
+            // be nested in, which keeps using the node's handover space), so it is given up only
+            // when the outermost `with` is left.
+            self.helping.discard.set(true);
         }
         gen
     }
